@@ -12,7 +12,6 @@ followed by respond() must queue a payload that decodes to the same value.
 from __future__ import annotations
 
 import random
-import struct
 
 from vk.core import exc_site
 from vk.engine import parallel
@@ -37,54 +36,8 @@ LEVEL_NOTE = "payloads longer than 2 octets are covered by positional / pair swe
 
 ALLOWED = (CouldNotParseTelegram, ConversionError)
 
-_DATETIME_BG = [bytes((124, 6, 15, (3 << 5) | 12, 30, 45, 0x00, 0x00)), bytes((0, 12, 31, 24, 0, 0, 0x40, 0xC0)), bytes((255, 1, 1, 0xE0 | 23, 59, 59, 0x81, 0x80))]
-
-
-def _f32_specs(rng: random.Random, n: int):
-    """Structured DPT 14 payloads: decimal boundaries, denormals, specials, random magnitudes."""
-    vals = [0.0, -0.0, 1.0, -1.0, 0.1, 0.29, 1e-45, 1.1754942e-38, 1.17549435e-38, 3.4028235e38, -3.4028235e38, float("inf"), float("-inf"), 16777216.0, 16777217.0, 8.59e9, 9.999999e9]
-    for k in range(-44, 39):
-        vals += [10.0**k, 9.9999995 * 10.0**k, 1.0000001 * 10.0**k, 9.999999 * 10.0**k]
-    for v in vals:
-        try:
-            yield ("a", struct.pack(">f", v))
-        except OverflowError:
-            pass
-    yield ("a", bytes.fromhex("7fc00000"))  # NaN
-    yield ("a", bytes.fromhex("ffc00001"))
-    for _ in range(n):
-        m = rng.uniform(1, 10) * 10.0 ** rng.randint(-44, 38)
-        try:
-            yield ("a", struct.pack(">f", m if rng.random() < 0.5 else -m))
-        except OverflowError:
-            pass
-
-
-def _representative(T) -> bool:
-    lab = D.codec_label(T)
-    for c in D.all_dpt_classes():
-        if D.codec_label(c) == lab:
-            return c is T
-    return True
-
-
 def specs_for(ctx, T, rng: random.Random):
-    n = T.payload_length
-    if D.is_binary(T) or n <= 2:
-        yield from D.own_shape_specs(T, rng, 0)
-        return
-    extra = _DATETIME_BG if T.__name__ == "DPTDateTime" else []
-    yield from D.positional_sweep(n, rng, n_random_bg=3, extra_bg=extra)
-    # all values of adjacent octet pairs (16-bit fields) over a flags-valid background
-    pair_bgs = [bytes([0xFF]) * n, bytes(n)] + extra[:1]
-    # (only on the first class of each codec family: the others share the code)
-    if n <= 8 and _representative(T):
-        for bg in pair_bgs[: ctx.n(1, 3)]:
-            for pos in range(0, n - 1, ctx.n(2, 1)):  # quick: even-aligned 16-bit fields only
-                yield from D.pair_sweep(n, pos, pos + 1, bg)
-    if n == 4:
-        yield from _f32_specs(rng, ctx.n(2000, 40000))
-    yield from D.random_array_specs(n, rng, ctx.n(4000, 80000))
+    return D.roundtrip_specs(T, rng, quick=ctx.quick, n_f32=ctx.n(2000, 40000), n_random=ctx.n(4000, 80000))
 
 
 def roundtrip(ctx, T, spec) -> str:
@@ -100,7 +53,7 @@ def roundtrip(ctx, T, spec) -> str:
     try:
         p2 = T.to_knx(v)
     except ConversionError as e:
-        ctx.fail(f"C08:encode-rejects:{label}", D.case_of(T, spec), f"{T.__name__}: {p!r} -> {v!r}; to_knx raised {type(e).__name__}: {e}")
+        ctx.fail(f"C08:encode-rejects:{label}:{D.cause_site(e)}", D.case_of(T, spec), f"{T.__name__}: {p!r} -> {v!r}; to_knx raised {type(e).__name__}: {e}")
         return "fail"
     except Exception as e:  # noqa: BLE001
         ctx.fail(f"C08:encode-exc:{label}:{exc_site(e)}", D.case_of(T, spec), f"{T.__name__}: {p!r} -> {v!r}; to_knx raised {type(e).__name__}: {e}")
@@ -118,7 +71,7 @@ def roundtrip(ctx, T, spec) -> str:
         ctx.fail(f"C08:redecode-rejects:{label}", D.case_of(T, spec), f"{T.__name__}: {p!r} -> {v!r} -> {p2!r}; from_knx raised {type(e).__name__}: {e}")
         return "fail"
     if not D.same_value(v, v2):
-        ctx.fail(f"C08:neq:{label}", D.case_of(T, spec), f"{T.__name__}: {p!r} -> {v!r} -> {p2!r} -> {v2!r}")
+        D.fail_capped(ctx, f"C08:neq:{label}", D.case_of(T, spec), lambda: f"{T.__name__}: {p!r} -> {v!r} -> {p2!r} -> {v2!r}", cap=5000)
         return "fail"
     return "ok"
 
